@@ -597,7 +597,8 @@ impl Work<Context, WorkId, Error> for StaticMetadataWork {
             .values()
             .filter(|g| g.export)
             .flat_map(|g| {
-                bracket_glyph_names(g, &static_metadata.axes).map(|(bracket_name, _)| bracket_name)
+                bracket_glyph_names(g, &static_metadata.all_source_axes)
+                    .map(|(bracket_name, _)| bracket_name)
             })
             .collect::<Vec<_>>();
         bracket_glyphs.sort();
@@ -747,9 +748,11 @@ fn get_bracket_info(layer: &Layer, axes: &Axes) -> ConditionSet {
         "all bracket layers have axis rules"
     );
 
+    // axis rules are listed per source axis, point axes included: pair them up
+    // before dropping the axes that don't vary
     axes.iter()
-        .filter(|ax| !ax.is_point())
         .zip(&layer.attributes.axis_rules)
+        .filter(|(ax, _)| !ax.is_point())
         .map(|(axis, rule)| {
             let min = rule
                 .min
